@@ -92,7 +92,7 @@ MIN = {
 }
 CASE_TIMEOUT = 60
 
-NCASES = {'quick': 960, 'thorough': 12000}
+NCASES = {'quick': 800, 'thorough': 12000}
 NQPOINTS = 11   # query points per recurrence (each asked ~4 methods x 3)
 TZS = ('Z', 'Z', '+0530', '-03', '+1245', '-0930', '+01', '-0330', '+14')
 FORMATS = (None, None, None, 'CCYY-MM-DDThh:mmZ')
